@@ -1,7 +1,7 @@
 (* C03 - Run-to-completion: nested events are queued, FIFO, never interleaved.  Statements only. *)
 From Coq Require Import List Arith Bool ZArith.
 Import ListNotations.
-From PySM Require Import Impl.Engine Proofs.EngineFrame Proofs.EngineProofs Proofs.EngineRefine.
+From PySM Require Import Impl.Engine Proofs.EngineFrame Proofs.EngineProofs Proofs.EngineRefine Proofs.EngineLog.
 
 (* while a transition is in progress (the lock is held) a send from any callback, at any phase and
    depth, only appends the event at the back of the queue and returns None *)
@@ -57,6 +57,27 @@ Theorem C03_initial_is_sentinel :
     trigger beh nested rm {| td_ev := None; td_tag := tag |} c = Ok c' r -> r = None.
 Proof. exact trigger_initial_is_sentinel. Qed.
 Print Assumptions C03_initial_is_sentinel.
+
+(* FIFO, never interleaved: a completed run of the loop processed a list of triggers one after the other,
+   each to completion ([Drained]); what was already queued comes first, in queue order, and everything
+   else was put later by callbacks - so every trigger is processed before any trigger put after it *)
+Theorem C03_loop_processes_one_at_a_time :
+  forall beh rm fuel c first c' v,
+    drain beh flat_nested rm fuel c first = Ok c' v -> exists tds, Drained beh rm c tds c'.
+Proof. exact drain_drained. Qed.
+Print Assumptions C03_loop_processes_one_at_a_time.
+
+Theorem C03_fifo :
+  forall beh rm c tds c', Drained beh rm c tds c' -> exists later, tds = queue c ++ later.
+Proof. exact drained_fifo. Qed.
+Print Assumptions C03_fifo.
+
+(* constant depth: whatever the number of events one call ends up processing (self-triggering chains
+   of any length), every callback runs at engine depth (depth c) + 1 and the depth is restored *)
+Theorem C03_constant_depth :
+  forall beh rm fuel c first, Rres drain_log c (drain beh flat_nested rm fuel c first).
+Proof. exact drain_depth. Qed.
+Print Assumptions C03_constant_depth.
 
 (* non-vacuity: an `on` callback sends event 0 twice; under RTC the sends return None and both run
    afterwards at depth 1; under rtc=False the first nested send runs at depth 2 *)
